@@ -358,6 +358,35 @@ def run_alignfn(ctx) -> RuleResult:
                                     if isinstance(cur, ast.If):
                                         verdict = False
             if verdict is None:
+                # path-exact form: the returned list literal has grown by one element per iteration over the ordered
+                # arguments (appends through any local name, e.g. the accumulator of an inlined generator)
+                core = lst
+                while isinstance(core, ast.Call) and isinstance(core.func, ast.Name) and core.func.id in ("list", "tuple") \
+                        and len(core.args) == 1:
+                    core = core.args[0]
+                if isinstance(core, ast.List):
+                    iters = [st for st in path if st.kind == "iter" and isinstance(st.node, ast.For)
+                             and _ordered_images(ctx, module, st.expand(st.node.iter), vararg) is True]
+                    if not core.elts and not iters:
+                        continue  # the loop body never ran on this path: nothing to judge
+                    if iters:
+                        source = _txt(iters[0].expand(iters[0].node.iter))
+                        own = [st for st in iters if _txt(st.expand(st.node.iter)) == source]
+                        # the element bound by each iteration (its tag identifies the iteration)
+                        iter_tags = []
+                        for st in own:
+                            nxt = path[path.index(st) + 1] if path.index(st) + 1 < len(path) else None
+                            bound = nxt.vars.get(st.node.target.id) if nxt is not None and isinstance(st.node.target, ast.Name) else None
+                            iter_tags.append(bound.args[1].value if bound is not None and is_S(bound, "elem") and len(bound.args) == 2
+                                             and isinstance(bound.args[1], ast.Constant) else None)
+                        if None not in iter_tags and len(core.elts) <= len(own):
+                            matched = all(
+                                any(is_S(n, "elem") and len(n.args) == 2 and isinstance(n.args[1], ast.Constant)
+                                    and n.args[1].value == tag for n in walk_shared(elt))
+                                for elt, tag in zip(core.elts, iter_tags))
+                            if matched:
+                                verdict = len(core.elts) == len(own)
+            if verdict is None:
                 raise AnalysisError(f"{name}: unrecognised construction of the returned list: {_txt(lst)[:100]}")
             result.ob(f"{name}: images listed in argument order [{len(trace)} decisions]", verdict, module.loc(last.orig), _txt(lst)[:80])
             if not verdict:
